@@ -126,6 +126,16 @@ CHECKS["C03"] = dict(
     design="DESIGN.md §5 C03",
     technique="Coq proof (invariant over the growing conjugation cache, instantiated with the regenerated particle tables) + differential correspondence through the real parser")
 
+CHECKS["C07"] = dict(
+    text=("Theorems over the query models: flat dictionaries (Alias, ChargeConj, Define, CopyDecay, Particle) report for each name its "
+          "LAST declaration and have exactly the declared names as keys; CDecay list = sorted permutation of all statements; global "
+          "PHOTOS flag = last one, off when absent; Pythia (per kind, per module:param) and JetSet (per module, per index) report the last "
+          "statement, JetSet integers stay integers; lineshape settings: error iff some (particle, setting) is repeated, otherwise every "
+          "statement accounted for; Particle width = explicit or reference width of the aliased particle divided by GeV. Unbounded. "
+          "PARTIAL front end as C01."),
+    design="DESIGN.md §5 C07",
+    technique="Coq proof (fold invariants over insertion-ordered dictionaries) + differential correspondence through the real parser")
+
 NOT_YET = {
 }
 
